@@ -258,10 +258,39 @@ def run(rep, tier, seed):
     cases = gen(rng, tier)
     for fc in lf.replay_known(rep, "C03", known_oracle):
         cases.insert(0, fc)
-    lf.run_cases(cases, model=False)
+    lf.add_histories(rng, cases)
+    lf.run_cases(cases, model=True, extra_requests=lambda c: ["cover 0 0 1"], parse_model=False)
+    cases += directed(rep, cases, rng)
     fcases = forest_cases(cases)
     lf.run_cases(fcases, model=False)
     check(rep, cases, fcases, proofs_ok)
+
+
+def cover_failures(cases):
+    return [c for c in cases if c.dump is not None and getattr(c, "extra", None) and not c.extra[0].startswith("ok")]
+
+
+def directed(rep, cases, rng):
+    """The table-side premise of GLR completeness is the right-nulled certificate (`Cover.check` with rn: every cell
+    holds exactly the canonical actions plus every right-nulled reduction, C04_cover_sound).  For a grammar whose RN
+    table fails it, search deeper (all strings to length 8 over its alphabet, capped) for an input that loses a tree."""
+    out = []
+    for c in sorted(cover_failures(cases), key=lambda c: len(c.text))[:6]:
+        g = c.gram
+        alphabet = list(g.terms.keys())
+        inputs, seen = [], {tuple(m["toks"]) for (_, _, _, m) in c.inputs}
+        for s in all_strings(alphabet, 8 if len(alphabet) <= 2 else 6 if len(alphabet) <= 3 else 5):
+            if tuple(s) not in seen and len(inputs) < 4000:
+                inputs.append(("GLR", "0", "".join(g.terms[t] for t in s), {"toks": s, "job": "std"}))
+        if inputs:
+            d = lf.Case(c.text, c.settings, inputs, gram=g, tag="directed")
+            d.extra = ["ok (directed search case)"]
+            out.append(d)
+    if out:
+        lf.run_cases(out, model=False)
+        for d in out:
+            d.extra = ["ok (directed search case)"]
+    return out
 
 
 def check(rep, cases, fcases, proofs_ok):
@@ -269,7 +298,8 @@ def check(rep, cases, fcases, proofs_ok):
                        "(acyclic, no ambiguous empty derivation; ambiguous / non-LR / nullable) with the RN table; inputs: all strings up "
                        "to the length bound + sentences; per input: solutions() vs an independent derivation counter, every enumerated "
                        "tree valid modulo elision and distinct, tree set = derivation tree set (<= 64 trees), by-index = by-iteration, "
-                       "None beyond solutions(); second pass: the real SPPF (runtime hook) is loaded into the Lean enumeration model "
+                       "None beyond solutions(); every RN table must pass the Lean certificate Cover.check (exactly the canonical "
+                       "actions plus every right-nulled reduction), a failing table triggers a directed deeper input search; second pass: the real SPPF (runtime hook) is loaded into the Lean enumeration model "
                        "and solutions/get_tree compared; distinct = (grammar, input)")
     failures, _ = lf.evaluate(rep, cases, oracle, proofs_ok, PROP_MODULE, compare_model=False, known_class=known_class)
     breaks = forest_correspondence(rep, fcases)
@@ -277,7 +307,17 @@ def check(rep, cases, fcases, proofs_ok):
     amb = sum(1 for c in cases for r in c.results if r.startswith("ok ") and int(r.split(" ")[1]) > 1)
     rep.counters["ambiguous_inputs"] = amb
     rep.counters["sentences"] = sum(1 for c in cases for r in c.results if r.startswith("ok "))
-    if breaks and not failures:
+    cf = cover_failures(cases)
+    rep.counters["rn_tables_certified"] = sum(1 for c in cases if c.dump is not None and getattr(c, "extra", None)
+                                               and c.extra[0].startswith("ok pairs"))
+    rep.counters["rn_certificate_failures"] = len(cf)
+    if cf and not failures:
+        c = min(cf, key=lambda c: len(c.text))
+        rep.violation(dict(c.describe(), why="the right-nulled table of this grammar fails the Lean certificate Cover.check "
+                           "(rn): " + c.extra[0] + " -- GLR completeness is no longer shown for it; the directed search "
+                           "(all strings to length 5-8) found no input that loses a tree", kind="certificate",
+                           n_failures=len(cf)), no_input=True)
+    if breaks and not failures and not cf:
         c, k, ans = breaks[0]
         rep.violation(dict(c.describe(k), why="correspondence corr:forest broken (Lean Forest.getTree/solutions != real "
                            "Forest::get_tree/solutions on the dumped SPPF); the derivation oracle found no failing input",
@@ -292,7 +332,7 @@ def replay(rep, path):
     g = lf.parse_bnf(p["grammar"])
     inp = p.get("input", "")
     c = lf.Case(p["grammar"], p["settings"].split(" "), [("GLR", "0", inp, {"toks": lf.toks_of_input(g, inp), "job": "std"})], gram=g)
-    lf.run_cases([c], model=False)
+    lf.run_cases([c], model=True, extra_requests=lambda c: ["cover 0 0 1"], parse_model=False)
     f = forest_cases([c])
     lf.run_cases(f, model=False)
     check(rep, [c], f, True)
